@@ -1,1 +1,3 @@
-#[cfg(any(not(verif_select), verif_gc))] #[path = "/verif/harness/ntp_proto/gc_probe_cookiestash.rs"] pub(crate) mod gc;
+#[cfg(any(not(verif_select), verif_gc))]
+#[path = "/verif/harness/ntp_proto/gc_probe_cookiestash.rs"]
+pub(crate) mod gc;
